@@ -81,10 +81,10 @@ Section Total.
     destruct (call_default (e_now E) name this args) eqn:C; [|apply np_fail]. apply np_lift. eapply Hfun; eauto.
   Qed.
 
-  Lemma np_eval_ident c : np (eval_ident rs c).
+  Lemma np_eval_ident c : np (eval_ident rs E c).
   Proof.
-    intros lg. unfold eval_ident. pose proof (Hrs empty_env c false O lg) as H.
-    destruct (rs empty_env c false O lg) as [[v|e| | |] lg']; cbn in *; try discriminate; try congruence. destruct v; cbn; discriminate.
+    intros lg. unfold eval_ident. pose proof (Hrs (ident_env E) c false O lg) as H.
+    destruct (rs (ident_env E) c false O lg) as [[v|e| | |] lg']; cbn in *; try discriminate; try congruence. destruct v; cbn; discriminate.
   Qed.
 
   Lemma np_run_body E' c : np (run_body rs d E' c).
@@ -93,7 +93,7 @@ Section Total.
     destruct (rs E' c true d lg) as [[v|e| | |] lg']; cbn in *; try discriminate; congruence.
   Qed.
 
-  Lemma np_with_ident c k : (forall x, np (k x)) -> np (with_ident rs c k).
+  Lemma np_with_ident c k : (forall x, np (k x)) -> np (with_ident rs E c k).
   Proof. intros Hk. unfold with_ident. apply np_bind; [apply np_eval_ident|]. intros [e|x]; [apply np_ret|apply Hk]. Qed.
 
   Ltac body_step IH :=
